@@ -28,7 +28,10 @@ pub fn streams() -> Vec<(String, Vec<u8>, usize, bool)> {
     let cur = tls::handshake(&max).len();
     max.exts.push(Ext::Other(0x1234, vec![7; 16384 - cur - 4]));
     let tls10 = Hello { record_version: 0x0300, legacy: 0x0301, ..typical.clone() };
-    for (n, h) in [("minimal", &minimal), ("typical", &typical), ("padded517", &padded), ("big", &big), ("max-record", &max), ("record-version-0300", &tls10)] {
+    // every record-layer version a ClientHello record may carry (0x0300 .. 0x0304), on a small hello
+    let rv: Vec<(String, Hello)> = [0x0300u16, 0x0301, 0x0302, 0x0303, 0x0304].iter().map(|&v| (format!("record-version-{v:04x}-small"), Hello { record_version: v, exts: vec![Ext::Sni(s("rv.example")), Ext::SupVer(vec![0x0304, 0x0303])], ..Hello::default() })).collect();
+    // (appended behind the others: positions 0 and 1 are "the minimal" and "the typical" hello for the deep families below)
+    for (n, h) in [("minimal", &minimal), ("typical", &typical), ("padded517", &padded), ("big", &big), ("max-record", &max), ("record-version-0300", &tls10)].into_iter().chain(rv.iter().map(|(n, h)| (n.as_str(), h))) {
         let b = tls::bytes(h);
         let l = b.len();
         v.push((n.to_string(), b, l, true));
@@ -326,7 +329,7 @@ pub fn run(thorough: bool) -> Outcome {
     }
     Outcome {
         report: total,
-        rule: "every in-order partition with first segment >= 5 bytes: all 2-partitions of every stream (7 hellos up to the 16 KiB record, one whose random, session id and an extension body contain bytes that read like handshake record headers, hello followed by CCS+application data, 4 non-hello records), all 3-partitions of streams <= 600 B (<= 2000 B thorough), field-boundary 3-partitions of long hellos, the all-1-byte partition, all k-partitions (k <= 4, 6 thorough) of the minimal hello; reader API and packet-level pipeline (fresh flow table), analyze_pcap on every 2-partition of the typical hello; packet route also after a SYN and with FIN on the last segment; one hello with 150 ms of real time between its segments; distinct = distinct (stream, per-segment result pattern)".into(),
+        rule: "every in-order partition with first segment >= 5 bytes: all 2-partitions of every stream (12 hellos up to the 16 KiB record incl. every record-layer version 0x0300..0x0304, one whose random, session id and an extension body contain bytes that read like handshake record headers, hello followed by CCS+application data, 4 non-hello records), all 3-partitions of streams <= 600 B (<= 2000 B thorough), field-boundary 3-partitions of long hellos, the all-1-byte partition, all k-partitions (k <= 4, 6 thorough) of the minimal hello; reader API and packet-level pipeline (fresh flow table), analyze_pcap on every 2-partition of the typical hello; packet route also after a SYN and with FIN on the last segment; one hello with 150 ms of real time between its segments; distinct = distinct (stream, per-segment result pattern)".into(),
         exhaustive: true,
         bounds: json!({"streams": ss.iter().map(|x| (x.0.clone(), x.1.len())).collect::<Vec<_>>(), "max_parts_minimal_hello": maxk + 1}),
     }
